@@ -101,7 +101,9 @@ class Check:
             self.cov["samples"] = ["(no sample recorded)"]
         evdir = os.environ.get("VERIF_EVIDENCE_DIR") or os.path.join(ROOT, "evidence")
         os.makedirs(evdir, exist_ok=True)
-        with open(os.path.join(evdir, f"{self.prop}.json"), "w") as f:
+        # a replay of one recorded case is not the check's evidence: it goes to <id>.replay.json
+        evname = f"{self.prop}.replay.json" if getattr(self, "replay_path", None) else f"{self.prop}.json"
+        with open(os.path.join(evdir, evname), "w") as f:
             json.dump(ev, f, indent=1, default=str)
         for (c, w), n in self.known_hits.items():
             print(f"KNOWN-FINDING: property={self.prop} {c}: {w} (seen {n}x)")
@@ -139,6 +141,7 @@ def main(fn, prop):
     ap.add_argument("--replay", default=None)
     a = ap.parse_args(sys.argv[1:])
     ck = Check(prop, a.tier, a.seed)
+    ck.replay_path = a.replay
     try:
         fn(ck, a)
         rc = ck.finish()
